@@ -96,6 +96,7 @@ def json_candidates(fmt, doc):
             out += [(var + ["id"], x) for x in ["a-b", "a b", "", None, "x.y"] + rules.BAD_VARIANT_IDS[::5]] + [(var + ["name"], x) for x in ["", None, 5]]
             out += [(var + ["type"], x) for x in ["bogus", None, "Variant", ""]] + [(var + ["arches"], x) for x in [[], None, 5]]
             out += [(var + ["uid"], "X" + v["uid"]), (var + ["uid"], v["uid"] + "x")]
+            out += [(var + ["uid"], o) for o in sorted(p["variants"]) if o != uid]          # claims the UID of another variant
             parents = [u for u in p["variants"] if uid.startswith(u + "-") and uid[len(u) + 1:] in p["variants"][u].get("variants", [])]
             for par in parents:
                 grands = [g for g in p["variants"] if par.startswith(g + "-") and par[len(g) + 1:] in p["variants"][g].get("variants", [])]
@@ -196,6 +197,9 @@ def ini_candidates(ini):
             out += [((sec, "id"), "a-b"), ((sec, "type"), "bogus"), ((sec, "type"), "layered-product")]
             if "parent" in ini[sec]:
                 out.append(((sec, "uid"), "X" + ini[sec]["uid"]))
+            # UIDs are unique within a tree: this variant claims the UID of another one
+            out += [((sec, "uid"), ini[o]["uid"]) for o in sorted(ini) if (o.startswith("variant-") or o.startswith("addon-")) and o != sec
+                    and ini[o].get("uid") not in (None, ini[sec].get("uid"))]
             if "addons" in ini[sec]:
                 out.append(((sec, "addons"), ini[sec]["addons"] + ",Ghost-Child"))
         if sec.startswith("images-"):
@@ -368,14 +372,20 @@ def json_paths(doc, prefix=()):
 
 meta_strategy = st.sampled_from(["composeinfo", "composeinfo", "images", "images", "treeinfo", "treeinfo", "rpms", "modules", "extra_files", "discinfo"]).flatmap(
     lambda fmt: st.fixed_dictionaries({"format": st.just(fmt), "desc": _descs[fmt] if fmt in _descs else c06._disc(), "where": st.integers(0, 100000),
-                                       "how": st.integers(0, len(REPLACEMENTS) + 3), "other": st.integers(0, 100000)}))
+                                       "how": st.one_of(st.integers(0, len(REPLACEMENTS) + 3), st.just(len(REPLACEMENTS) + 4)), "other": st.integers(0, 100000)}))
 
 
 def mutate(fmt, text, where, how, other):
     if fmt == "treeinfo":
         ini = tim.read_ini(text)
         slots = [(s, None) for s in sorted(ini)] + [(s, o) for s in sorted(ini) for o in sorted(ini[s])]
-        sec, opt = slots[where % len(slots)]
+        if how >= len(REPLACEMENTS) + 4:
+            names = [o for _, o in slots if o is not None]
+            peers = [(s1, o1) for s1, o1 in slots if o1 is not None and names.count(o1) > 1]
+            slots_here = peers or slots
+        else:
+            slots_here = slots
+        sec, opt = slots_here[where % len(slots_here)]
         if opt is None:
             if how % 3 == 0:
                 del ini[sec]
@@ -383,6 +393,12 @@ def mutate(fmt, text, where, how, other):
                 ini[sec + "x"] = ini.pop(sec)
             else:
                 ini[sec] = {}
+        elif how >= len(REPLACEMENTS) + 4:
+            # the value of the same option of another record (two records then claim the same id / uid / path ...)
+            same = [(s2, o2) for s2, o2 in slots if o2 == opt and s2 != sec]
+            if same:
+                s2, o2 = same[other % len(same)]
+                ini[sec][opt] = ini[s2][o2]
         elif how >= len(REPLACEMENTS):
             if how % 2:
                 del ini[sec][opt]
@@ -405,11 +421,23 @@ def mutate(fmt, text, where, how, other):
         return "\n".join(lines)
     doc = json.loads(text)
     paths = json_paths(doc)
-    path = paths[where % len(paths)]
+    if how >= len(REPLACEMENTS) + 4:
+        lasts = [q[-1] for q in paths if not isinstance(q[-1], int)]
+        peers = [q for q in paths if not isinstance(q[-1], int) and lasts.count(q[-1]) > 1]
+        path = (peers or paths)[where % len(peers or paths)]
+    else:
+        path = paths[where % len(paths)]
     node = doc
     for k in path[:-1]:
         node = node[k]
-    if how >= len(REPLACEMENTS):
+    if how >= len(REPLACEMENTS) + 4:
+        same = [q for q in paths if q[-1] == path[-1] and q != path and not isinstance(q[-1], int)]
+        if same:
+            val = doc
+            for k in same[other % len(same)]:
+                val = val[k]
+            node[path[-1]] = copy.deepcopy(val)
+    elif how >= len(REPLACEMENTS):
         if how % 2 or isinstance(node, list):
             del node[path[-1]]
         else:
@@ -421,6 +449,15 @@ def mutate(fmt, text, where, how, other):
     else:
         node[path[-1]] = REPLACEMENTS[how]
     return json.dumps(doc)
+
+
+def separator_in_list_element(tree_info):
+    elements, todo = [tree_info.tree.arch], list(tree_info.variants.variants.values())
+    while todo:
+        v = todo.pop()
+        elements += [v.id, v.uid]
+        todo.extend(v.variants.values())
+    return any(isinstance(e, str) and "," in e for e in elements)
 
 
 def meta_case(case):
@@ -435,6 +472,10 @@ def meta_case(case):
         return {"nontrivial": True, "labels": [fmt, "rejected"]}
     # the load succeeded: everything obtained from it must satisfy what writing enforces
     first = must("loaded-object-cannot-be-written[%s]" % fmt, (lambda: tim.dump_text(obj, None)) if fmt == "treeinfo" else obj.dumps)
+    if fmt == "treeinfo" and separator_in_list_element(obj):
+        # '[tree] arch = a,b' and friends: the value is a legal free-form string, but the INI encoding joins it into comma-separated
+        # lists; what a second cycle yields is outside the statement (which ends at "can be written")
+        return {"nontrivial": True, "labels": [fmt, "load-succeeded", "separator-in-list-element"]}
     again = cls()
     must("written-document-cannot-be-reloaded[%s]" % fmt, again.loads, first)
     second = must("reloaded-object-cannot-be-written[%s]" % fmt, (lambda: tim.dump_text(again, None)) if fmt == "treeinfo" else again.dumps)
@@ -516,7 +557,7 @@ def atheris_campaign(ctx, runs):
 def run(ctx):
     ctx.forall("corruption", case_strategy, corruption_case, ctx.n(2400, 64000))
     ctx.sweep("neighbourhood-sweep", sweep_cases(), sweep_case, exhaustive=True, stop_after=8)
-    ctx.forall("metamorphic", meta_strategy, meta_case, ctx.n(2400, 64000))
+    ctx.forall("metamorphic", meta_strategy, meta_case, ctx.n(4000, 64000))
     if ctx.thorough and ctx.wanted("atheris"):
         atheris_campaign(ctx, 40000)
 
